@@ -139,6 +139,14 @@ class Real:
             with torch.no_grad():
                 o.tensor.add_(self.delta(n))
             o.fire_parameter_changed()
+        elif kind == "fetchmod":
+            # what the MCMC operators do: fetch the tensor, change an entry in place, assign the same tensor back
+            with torch.no_grad():
+                t = o.tensor
+                t = t if not t.requires_grad else t.detach()
+                flat = t.reshape(-1)
+                flat[0] = flat[0] * (1.0 + abs(self.delta(n)))
+            o.tensor = t
         elif kind == "setvia":
             bump = {r: self.delta(r) for r in self.raws_under(n) if self.free(r)}
             f = self.fresh(bump)
@@ -194,6 +202,8 @@ def choose_ops(real: Real, max_set=8, max_via=4):
     random.Random(2).shuffle(vias)
     views = [n for n in vias if isinstance(g.nodes[n], ViewParameter)]
     cand += [f"setvia:{n}" for n in (views[:2] + [v for v in vias if v not in views[:2]])[:max_via]]
+    cats = [n for n in vias if isinstance(g.nodes[n], CatParameter)]
+    cand += [f"fetchmod:{n}" for n in (cats[:2] + views[:1] + sets[:1])]
     sides = sorted({side_op(g, n) for n in g.nodes} - {""})
     cand += sides
     ops = {}
@@ -477,6 +487,9 @@ def run(ctx: Ctx):
             ctx.add("zoo_entries_skipped")
             continue
         run_graph(ctx, name, doc, upto, quick)
+    # in-place optimiser steps followed by the change notification: the real Optimizer loop replayed along Optimizer.tla's behaviours
+    from . import optloop
+    optloop.check(ctx, True)
     if ctx.cov.get("flag_mismatch_steps"):
         ctx.notes.append(f"MODEL-DRIFT: {ctx.cov['flag_mismatch_steps']} replayed steps where real cache flags differ from the ModelGraph state (extraction imprecise; verdicts come from the fresh-copy comparison)")
     ctx.cov["rule"] = ("walks covering transitions of the TLC state graph of each extracted model graph, replayed on real objects; "
